@@ -1,6 +1,6 @@
 """Property table: which specification, configurations, drivers and clauses decide
 each listed property.  Tiers: quick / thorough."""
-import json, os, shutil, subprocess, time, glob
+import json, os, shutil, subprocess, sys, time, glob
 from concurrent.futures import ThreadPoolExecutor
 import vlib
 from vlib import log, Inconclusive, ROOT
@@ -71,6 +71,8 @@ class ModuleCheck:
     def run_gen(self, tier, work, seed):
         outs = []
         jobs = []
+        if os.environ.get("VERIF_SKIP_GEN"):
+            return 0, []
         for gi, g in enumerate(self.gen[tier]):
             for k in range(g.get("seeds", 1)):
                 jobs.append((gi, g, seed * 1000 + gi * 100 + k))
@@ -152,6 +154,7 @@ class ModuleCheck:
         path = os.path.join(ROOT, "replays", f"{pid}-{tag}-seed{seed}.ndjson")
         evs = [json.loads(x)["ev"] for x in sub if x.strip()]
         evs = [e for e in evs if e.get("name") != "Init"]
+        cfg = json.loads(sub[0]).get("cfg", cfg) if sub else cfg
         with open(path, "w") as f:
             f.write(json.dumps(evs) + "\n")
         with open(path + ".trace", "w") as f:
@@ -165,6 +168,11 @@ class ModuleCheck:
         t0 = t0 or time.time()
         if replay:
             return self.replay(pid, replay, work, seed)
+        rc, cov, nviol = self.run_core(pid, tier, seed, work, skip_mc)
+        vlib.write_evidence(pid, tier, seed, cov, time.time() - t0, nviol, self.assumptions)
+        return rc
+
+    def run_core(self, pid, tier, seed, work, skip_mc=False):
         cov = {"rule": "states/transitions: TLC exhaustive run(s) of the module specification under the "
                        "listed configs; traces: behaviours executed on the real irismod code (TLC-generated, "
                        "seeded random, scripted scenarios) and validated line by line by TLC against the "
@@ -222,30 +230,25 @@ class ModuleCheck:
             "model_counterexamples": [{"cfg": c, "property": p} for c, p, _ in cex_traces],
             "samples": vlib.sample_lines(allf, 3),
         })
-        wall = time.time() - t0
         if viol:
             path, clause = self.report_violation(pid, allf, viol, seed, tier, self.gen_cfg)
             # reproduce once more from recorded inputs
             rp = self.replay(pid, path, work, seed, quiet=True)
-            vlib.write_evidence(pid, tier, seed, cov, wall, len(viol), self.assumptions)
             if rp != 1:
                 log(f"INCONCLUSIVE property={pid}: clause {clause} failed but did not reproduce on replay ({path})")
-                return 2
+                return 2, cov, len(viol)
             log(f"clause {clause} failed on a real-code trace (and {len(viol)-1} more clause instances)")
             print(f"VIOLATION property={pid} replay={path}", flush=True)
-            return 1
+            return 1, cov, len(viol)
         if cex_traces:
-            vlib.write_evidence(pid, tier, seed, cov, wall, 0, self.assumptions)
             log(f"MODEL-ONLY: TLC found {[p for _, p, _ in cex_traces]} in the model but the real code "
                 f"satisfies every clause on the replayed counterexample; the model is wrong or a known finding masks it")
             if not known_hits:
-                return 2
+                return 2, cov, 0
         if missing:
-            vlib.write_evidence(pid, tier, seed, cov, wall, 0, self.assumptions)
             log(f"INCONCLUSIVE property={pid}: antecedents never exercised: {missing}")
-            return 2
-        vlib.write_evidence(pid, tier, seed, cov, wall, 0, self.assumptions)
-        return 0
+            return 2, cov, 0
+        return 0, cov, 0
 
     def replay(self, pid, path, work, seed, quiet=False):
         meta = {}
@@ -285,6 +288,51 @@ def match_known(known, pid, clause, rec):
     return None
 
 
+class AggregateCheck:
+    """A property whose clauses live in several module specifications (C13):
+    every part runs its own pipeline restricted to its clauses; the verdict is
+    the worst one, the evidence the sum."""
+    binary = None
+
+    def __init__(self, parts, assumptions=()):
+        self.parts = parts          # list of ModuleCheck
+        self.assumptions = list(assumptions)
+
+    def run(self, pid, tier, seed, work, replay=None, skip_mc=False, t0=None):
+        t0 = t0 or time.time()
+        if replay:
+            meta = json.load(open(replay + ".meta")) if os.path.exists(replay + ".meta") else {}
+            for p in self.parts:
+                if p.module == meta.get("module", p.module):
+                    vlib.build_harness(p.binary)
+                    return p.replay(pid, replay, work, seed)
+            return 2
+        total = {"states": 0, "transitions": 0, "traces_validated_against_impl": 0, "events_validated": 0,
+                 "samples": [], "parts": {}, "exhaustive": True,
+                 "rule": "sum over the module specifications that own a time-bound queue; see parts"}
+        worst, nviol = 0, 0
+        for p in self.parts:
+            vlib.build_harness(p.binary)
+            sub = os.path.join(work, "part-" + p.module)
+            os.makedirs(sub, exist_ok=True)
+            vlib.copy_specs(sub)
+            rc, cov, nv = p.run_core(pid, tier, seed, sub, skip_mc)
+            nviol += nv
+            for k in ("states", "transitions", "traces_validated_against_impl", "events_validated"):
+                total[k] += cov.get(k, 0)
+            total["samples"] += cov.get("samples", [])[:1]
+            total["exhaustive"] = total["exhaustive"] and cov.get("exhaustive", False)
+            total["parts"][p.module] = {k: cov.get(k) for k in ("states", "transitions", "traces_validated_against_impl",
+                                                                 "clause_antecedents", "clauses", "drift_steps", "mc_configs")}
+            if rc == 1:
+                worst = 1
+                break
+            if rc == 2:
+                worst = 2
+        vlib.write_evidence(pid, tier, seed, total, time.time() - t0, nviol, self.assumptions)
+        return worst
+
+
 # ---------------------------------------------------------------------------
 # Property definitions live in bin/propdefs/<module>.py; each defines
 #   PROPS = {"Cnn": ModuleCheck(...)}   and   TEXT = {"Cnn": {design, text, note}}
@@ -301,6 +349,7 @@ def _load():
     for f in sorted(glob.glob(os.path.join(d, "*.py"))):
         spec = importlib.util.spec_from_file_location("propdefs_" + os.path.basename(f)[:-3], f)
         m = importlib.util.module_from_spec(spec)
+        sys.modules[spec.name] = m
         spec.loader.exec_module(m)
         RECORDS.extend(getattr(m, "RECORD", []))
         PROPS.update(getattr(m, "PROPS", {}))
